@@ -27,7 +27,9 @@ def gen_chains(out, n):
     pool = L.load_pool()
     recs = L.select(pool, out.seed + 29, "quick", n)
     chains = []
+    from .c04 import entry_variant
     for rec in recs:
+        rec = entry_variant(rec, rnd)
         jobs = L.complete_jobs(rec)[:10]
         if not jobs:
             continue
